@@ -69,16 +69,6 @@ inductive Forall2 {α β : Type} (R : α → β → Prop) : List α → List β 
 def ciMatches (env : Env) (allowed : List Str) (s : Str) : List Str :=
   allowed.filter (fun a => env.lower a == env.lower s)
 
-/-- Negation of the class of known finding F40 for one value: all ENUM constraints of the chain that
-have a *single* case-insensitive match for `s` agree on it. -/
-def NoCycle (env : Env) (chain : List Constraint) (s : Str) : Prop :=
-  ∀ A B x y, Constraint.enum A ∈ chain → Constraint.enum B ∈ chain →
-    ciMatches env A s = [x] → ciMatches env B s = [y] → x = y
-
-/-- … for every text leaf of a document. -/
-def DocNoCycle (env : Env) (sch : Schema) (ls : List (Str × Val)) : Prop :=
-  ∀ k s, (k, Val.str s) ∈ ls → NoCycle env (chainOf sch k) s
-
 /-- External law used by idempotence: whether a text coerces to a number does not depend on letter
 case (CPython's numeral grammar is case-insensitive: `e/E`, `inf`, `nan`). -/
 def CaseStable (env : Env) : Prop :=
